@@ -14,7 +14,8 @@
    ALL theorems below are about the executable MODELS (tied to the Go code by differential execution only), not about the Go code itself. *)
 From Coq Require Import ZArith Reals String List Bool Lia Permutation Floats.
 From Flocq Require Import Core.
-From SID Require Import Base Str Ids Wire Voxel ZoomCore ChangeZoom Merge MergeCheck MergeRegion F64 ExactRef PointF PtBridge FF XF YF Consistency DC09.
+From SIDGen Require Import GeneratedF.
+From SID Require Import Base Str Ids Wire Voxel ZoomCore ChangeZoom Merge MergeCheck MergeRegion F64 ExactRef PointF PtBridge FF XF YF Consistency DC09 GenC09.
 Import ListNotations.
 Open Scope Z_scope.
 
@@ -271,6 +272,98 @@ Theorem C09_model_passes_merge_checker : forall i H V l, valid i -> eh i <= H <=
   exists merged, merge_ext_api (map print_eid l) (eh i) (ev i) = Ok merged /\ check_merge_desc (print_eid i) merged = true.
 Proof. exact model_passes_check_merge_desc. Qed.
 Print Assumptions C09_model_passes_merge_checker.
+
+(* ================================================================ the same, over the kernels REGENERATED from the Go source *)
+(* coq/generated/GeneratedF.v is rewritten by the translator from shape/point.go on every run; GenEqFPoint.v proves each generated kernel equal
+   to the hand-written model (gen_getHorizontalTileIdOnPoint_lonIndex_eq, gen_getHorizontalTileIdOnPoint_latIndex_eq,
+   gen_getVerticalTileIdOnAltitude_vIndex_eq). The theorems below are the nesting results about those generated definitions themselves:
+     gen_x lon lat h = int64(GeneratedF.getHorizontalTileIdOnPoint_lonIndex lon lat h),   gen_y M lon lat h = int64(.._latIndex M lon lat h),
+     gen_f alt v     = int64(GeneratedF.getVerticalTileIdOnAltitude_vIndex alt v),         gen_point_eid M p h v = the ID assembled from the three,
+   for EVERY record M of Go's math functions (gen_m M lat = the float 1 - Log(Tan r + 1/Cos r)/Pi computed with M's Tan, Cos, Log).
+   An edit of one of these kernels in the source breaks the gen_ lemma and hence these theorems. *)
+Theorem C09_gen_x_columns_nested : forall (lon lat : pfloat) h h', 0 <= h' <= h -> h <= 35 -> ffin lon = true -> (-180 <= fval lon <= 180)%R ->
+  exists x, Ztrunc_f (GeneratedF.getHorizontalTileIdOnPoint_lonIndex lon lat h) = Some x /\
+            Ztrunc_f (GeneratedF.getHorizontalTileIdOnPoint_lonIndex lon lat h') = Some (anc (h - h') x) /\ 0 <= x < 2 ^ h.
+Proof. exact gen_x_nested. Qed.
+Print Assumptions C09_gen_x_columns_nested.
+
+Theorem C09_gen_y_rows_nested_for_every_libm : forall (M : libm) (lon lat : pfloat) h h', 0 <= h' <= h -> h <= 35 ->
+  ffin (gen_m M lat) = true -> (0 <= fval (gen_m M lat) < 2)%R ->
+  exists y, Ztrunc_f (GeneratedF.getHorizontalTileIdOnPoint_latIndex M lon lat h) = Some y /\
+            Ztrunc_f (GeneratedF.getHorizontalTileIdOnPoint_latIndex M lon lat h') = Some (anc (h - h') y) /\ 0 <= y < 2 ^ h.
+Proof. exact gen_y_nested. Qed.
+Print Assumptions C09_gen_y_rows_nested_for_every_libm.
+
+Theorem C09_gen_y_rows_nested_from_row35 : forall (M : libm) (lon lat : pfloat) r h h',
+  ffin (gen_m M lat) = true -> (Rabs (fval (gen_m M lat)) <= 4)%R ->
+  Ztrunc_f (GeneratedF.getHorizontalTileIdOnPoint_latIndex M lon lat 35) = Some r -> 0 <= r < 2 ^ 35 -> 0 <= h' <= h -> h <= 35 ->
+  Ztrunc_f (GeneratedF.getHorizontalTileIdOnPoint_latIndex M lon lat h) = Some (anc (35 - h) r) /\
+  Ztrunc_f (GeneratedF.getHorizontalTileIdOnPoint_latIndex M lon lat h') = Some (anc (h - h') (anc (35 - h) r)).
+Proof. exact gen_y_nested_from_row35. Qed.
+Print Assumptions C09_gen_y_rows_nested_from_row35.
+
+Theorem C09_gen_f_is_exact_floor_outside_the_defect : forall (alt : pfloat) v, 0 <= v <= 35 -> ffin alt = true ->
+  (Rabs (fval alt) <= bpow radix2 40)%R -> ~ alt_vanishes alt v ->
+  Ztrunc_f (GeneratedF.getVerticalTileIdOnAltitude_vIndex alt v) = Some (F_exact v (fval alt)).
+Proof. exact gen_f_exact_outside_the_defect. Qed.
+Print Assumptions C09_gen_f_is_exact_floor_outside_the_defect.
+
+Theorem C09_gen_f_defect_class_refuted_everywhere : forall (alt : pfloat) v, 0 <= v <= 35 -> ffin alt = true ->
+  (Rabs (fval alt) <= bpow radix2 40)%R -> alt_vanishes alt v ->
+  Ztrunc_f (GeneratedF.getVerticalTileIdOnAltitude_vIndex alt v) = Some 0 /\ F_exact v (fval alt) = -1.
+Proof. exact gen_f_defect. Qed.
+Print Assumptions C09_gen_f_defect_class_refuted_everywhere.
+
+Theorem C09_gen_f_layers_nested_partial : forall (alt : pfloat) v v', 0 <= v' <= v -> v <= 35 ->
+  ffin alt = true -> (Rabs (fval alt) <= bpow radix2 40)%R -> ~ alt_vanishes alt v' ->
+  exists f, Ztrunc_f (GeneratedF.getVerticalTileIdOnAltitude_vIndex alt v) = Some f /\
+            Ztrunc_f (GeneratedF.getVerticalTileIdOnAltitude_vIndex alt v') = Some (anc (v - v') f).
+Proof. exact gen_f_nested_partial. Qed.
+Print Assumptions C09_gen_f_layers_nested_partial.
+
+Theorem C09_gen_f_layers_underflow_refuted :
+  exists (alt : pfloat) v v', 0 <= v' <= v /\ v <= 35 /\ ffin alt = true /\ (Rabs (fval alt) <= bpow radix2 25)%R /\ alt_vanishes alt v' /\
+    Ztrunc_f (GeneratedF.getVerticalTileIdOnAltitude_vIndex alt v) = Some (-1) /\
+    Ztrunc_f (GeneratedF.getVerticalTileIdOnAltitude_vIndex alt v') = Some 0 /\ anc (v - v') (-1) <> 0 /\ ~ rel1 v (-1) v' 0.
+Proof. exact gen_f_nesting_underflow_refuted. Qed.
+Print Assumptions C09_gen_f_layers_underflow_refuted.
+
+(* the whole point over the three generated kernels — PARTIAL with the same guards as C09_point_id_at_coarser_zoom_is_zoom_out_partial *)
+Theorem C09_gen_point_id_at_coarser_zoom_is_zoom_out_partial : forall (M : libm) p h v h' v',
+  0 <= h' <= h -> h <= 35 -> 0 <= v' <= v -> v <= 35 -> gen_pt_dom M p -> ~ alt_vanishes (palt p) v' ->
+  exists i i', gen_point_eid M p h v = Some i /\ gen_point_eid M p h' v' = Some i' /\ valid i /\ valid i' /\
+               eh i = h /\ ev i = v /\ eh i' = h' /\ ev i' = v' /\
+               ex i' = anc (h - h') (ex i) /\ ey i' = anc (h - h') (ey i) /\ ef i' = anc (v - v') (ef i) /\
+               change_eids [i] h' v' = [i'].
+Proof. exact gen_point_nesting_partial. Qed.
+Print Assumptions C09_gen_point_id_at_coarser_zoom_is_zoom_out_partial.
+
+Theorem C09_gen_point_voxels_nested_regions_partial : forall (M : libm) p h v h' v',
+  0 <= h' <= h -> h <= 35 -> 0 <= v' <= v -> v <= 35 -> gen_pt_dom M p -> ~ alt_vanishes (palt p) v' ->
+  exists i i', gen_point_eid M p h v = Some i /\ gen_point_eid M p h' v' = Some i' /\ forall q, inR i q -> inR i' q.
+Proof. exact gen_point_regions_nested_partial. Qed.
+Print Assumptions C09_gen_point_voxels_nested_regions_partial.
+
+Theorem C09_gen_voxels_of_a_point_pairwise_overlap_partial : forall (M : libm) p h1 v1 h2 v2,
+  0 <= h1 <= 35 -> 0 <= v1 <= 35 -> 0 <= h2 <= 35 -> 0 <= v2 <= 35 -> gen_pt_dom M p -> ~ alt_vanishes (palt p) (Z.min v1 v2) ->
+  exists i j, gen_point_eid M p h1 v1 = Some i /\ gen_point_eid M p h2 v2 = Some j /\ overlaps i j /\
+              overlap_check_api (print_eid i) (print_eid j) = Ok true.
+Proof. exact gen_point_voxels_overlap_partial. Qed.
+Print Assumptions C09_gen_voxels_of_a_point_pairwise_overlap_partial.
+
+Theorem C09_gen_point_nesting_underflow_refuted : forall (M : libm),
+  exists p, ffin (plon p) = true /\ ffin (palt p) = true /\ (Rabs (fval (palt p)) <= bpow radix2 25)%R /\ alt_vanishes (palt p) 24 /\
+    forall h i j, gen_point_eid M p h 25 = Some i -> gen_point_eid M p h 24 = Some j -> ef i = -1 /\ ef j = 0 /\ ~ overlaps i j.
+Proof. exact gen_point_nesting_underflow_refuted. Qed.
+Print Assumptions C09_gen_point_nesting_underflow_refuted.
+
+(* non-vacuity: a libm record (tan = 0, cos = 1, log = 0) and the point (139.75, 0, -75.5 m): in the domain, outside the defect class, and the
+   generated kernels give the voxels 20/931339/524288/25/-76 and 4/14/8/24/-38 *)
+Example C09_gen_point_domain_inhabited :
+  gen_pt_dom flat_libm example_point /\ ~ alt_vanishes (palt example_point) 0 /\
+  gen_point_eid flat_libm example_point 20 25 = Some (mk 20 931339 524288 25 (-76)) /\
+  gen_point_eid flat_libm example_point 4 24 = Some (mk 4 14 8 24 (-38)).
+Proof. exact gen_pt_dom_example. Qed.
 
 (* ================================================================ call histories *)
 (* The property quantifies over every history of calls. The four MODELS keep no state: the answers of a history are `map run_call`, so every
